@@ -356,10 +356,10 @@ def closeness_case(group, ua, ud, form_a, form_d, atol_spec, rtol_spec, f, sign,
             cls, exps = "rtol-not-dimensionless", [("exc", ("RuntimeError",))]
         elif atol_spec[0] == "incomm":
             cls, exps = "atol-incommensurable", [("ret", False)]
-        elif atol_spec[0] == "unit" and (has_offset(atol_spec[2]) or has_offset(ua)):
-            cls, exps = "atol-offset-unit", [("ret", verdict)]
         elif has_offset(ua) and rtol > 0:
             cls, exps = "rtol-offset-unit", [("ret", verdict)]
+        elif atol_spec[0] == "unit" and (has_offset(atol_spec[2]) or has_offset(ua)):
+            cls, exps = "atol-offset-unit", [("ret", verdict)]
         elif rtol_spec[0] == "percent":
             cls, exps = "rtol-percent", [("ret", verdict)]
         elif atol_spec[0] == "bare" and not same_scale:
@@ -446,14 +446,14 @@ def closeness_case(group, ua, ud, form_a, form_d, atol_spec, rtol_spec, f, sign,
         explicit_dimless = (not a_bare and not d_bare and group == "none" and ua != ud)
         ex_el = [("arr", np.asarray(elem_n).tolist())]
         ex_all = [("ret", verdict_n)]
-        if explicit_dimless:
-            cls = "dimensionless-quantity-as-bare"
-        elif rtol_spec[0] == "bad" or atol_spec[0] == "incomm":
+        if rtol_spec[0] == "bad" or atol_spec[0] == "incomm":
             cls, ex_el, ex_all = "tolerance-with-units", [("exc", None)], [("exc", None), ("ret", False)]
         elif atol_spec[0] == "unit" or rtol_spec[0] in ("dimless", "percent"):
             cls = "tolerance-with-units"             # honoured, or refused by raising
             ex_el.append(("exc", None))
             ex_all.append(("exc", None))
+        elif explicit_dimless:
+            cls = "dimensionless-quantity-as-bare"
         elif has_offset(cu) and rtol > 0:
             cls = "rtol-offset-unit"
         elif a_bare or d_bare:
@@ -525,6 +525,8 @@ def part_AB():
                     if atol_spec[0] == "none":
                         rtols = [("default",), ("bare", 0.01), ("dimless", 0.01), ("percent", 0.01),
                                  ("bad", 0.01, other), ("bad", 0.01, "rad")]
+                        if group != "none":
+                            rtols += [("bad", 0.01, ua), ("bad", 0.01, ud)]     # a unit of the operands' own dimension
                     elif atol_spec[0] == "incomm":
                         rtols = [("default",), ("bare", 0.01)]
                     else:
@@ -539,8 +541,9 @@ def part_AB():
                                 continue        # quick: f = 0 and f = 0.5 alternate
                             sign = 1 if (n // 2) % 2 == 0 else -1
                             idx = n % 3
-                            fa = FORMS_Q[n % len(FORMS_Q)]
-                            fd = FORMS_Q[(n // len(FORMS_Q)) % len(FORMS_Q)]
+                            h = 7 * n + 3 * m          # decorrelate the container form from the placement f
+                            fa = FORMS_Q[h % len(FORMS_Q)]
+                            fd = FORMS_Q[(h // len(FORMS_Q)) % len(FORMS_Q)]
                             if fa == "2d" and fd == "2d":
                                 fd = "arr"
                             if "qty" in (fa, fd):
@@ -622,7 +625,7 @@ def part_AB():
 
     # random part: random SI scenario, random unit assignment
     rng = R.rng
-    N = 6000 if R.thorough else 600
+    N = 40000 if R.thorough else 1000
     for _ in range(N):
         group = rng.choice(list(GROUPS))
         units = GROUPS[group]
@@ -919,6 +922,36 @@ def part_D():
                 if st != "ok" or bool(hv) != must:
                     record("C19[_has_dimensions:%s]" % fam, "_has_dimensions(%s, %s) -> %r, expected %r" % (vsrc, dname, hv, must))
 
+    # D1b: near misses -- dimensions that are NOT exported but share symbols with an exported one
+    for dname, dim in DIMS.items():
+        vec = VEC[dname]
+        fa, fr = make_accepts(dim), make_returns(dim)
+        near = {"squared": tuple(2 * p for p in vec), "sqrt": tuple(p / 2 for p in vec), "inverse": tuple(-p for p in vec),
+                "times-length": tuple(p + (1 if i == 1 else 0) for i, p in enumerate(vec)),
+                "per-time": tuple(p - (1 if i == 2 else 0) for i, p in enumerate(vec))}
+        for how, nvec in near.items():
+            if nvec == vec or nvec[7] != 0:
+                continue
+            vsrc = "unyt_quantity(3.0, %r)" % unit_string(nvec, SYSTEMS[(len(dname) + len(how)) % 3])
+            st, v = safe(eval, vsrc, NS)
+            if st != "ok":
+                R.notes.append("driver: cannot build %s" % vsrc)
+                continue
+            for kind, fn in (("accepts", fa), ("returns", fr)):
+                del calls[:]
+                try:
+                    fn(v)
+                    out = "pass"
+                except TypeError:
+                    out = "TypeError"
+                except Exception as e:  # noqa
+                    out = type(e).__name__
+                R.case("D1b", nontrivial=False)
+                R.keys.add((kind, dname, how))
+                if out != "TypeError" or len(calls) != (0 if kind == "accepts" else 1):
+                    record("C19[%s:near-miss-dimension]" % kind, "@%s(%s) with %s (%s of it): %s; must raise TypeError" % (
+                        kind, dname, vsrc, how, out), dec_replay(dname, vsrc, kind, "pos", False))
+
     # D2: call forms on multi-argument functions ---------------------------------------------
     L_good = ["unyt_quantity(2.0, 'm')", "unyt_quantity(2.0, 'ly')", "unyt_array([1.0, 2.0], 'inch')", "unyt_quantity(1.0, 'km*s/ms')"]
     L_bad = ["unyt_quantity(2.0, 's')", "2.0", "unyt_quantity(2.0, 'm**2')", "unyt_quantity(2.0, 'dimensionless')", "None"]
@@ -1040,8 +1073,13 @@ def part_D():
         "three": ("DM.returns(DM.energy, DM.time, DM.length)", 3, (0, 1, 2)),
         "deprecated-r_unit": ("DM.returns(r_unit=DM.energy)", 1, (0,)),
         "no-dimension": ("DM.returns()", 1, (None,)),
+        "list-is-bare": ("DM.returns(DM.dimensionless)", 1, (3,)),
+        "list-is-bare-2": ("DM.returns(DM.length)", 1, (4,)),
     }
-    pools = {0: (E_good, E_bad), 1: (T_good, T_bad), 2: (L_good, L_bad[:4])}
+    LISTS = ["[unyt_quantity(1.0, 'm'), unyt_quantity(2.0, 'm')]", "[1.0, 2.0]", "[unyt_quantity(1.0, 'm')]"]
+    pools = {0: (E_good, E_bad), 1: (T_good, T_bad), 2: (L_good, L_bad[:4]),
+             3: (LISTS + ["2.0", "np.array([1.0, 2.0])", "unyt_array([1.0], '%')"], L_good[:2]),
+             4: (L_good[:2], LISTS)}
     for fam, (decsrc, nret, roles) in RDEFS.items():
         ns = dict(NS)
         ns["DM"] = DM
